@@ -150,9 +150,11 @@ PROPS = {
                     "for a +-0.0 divisor, identically for literal and variable divisors; the five comparison arms and their immediate "
                     "forms form one total order (le == !lt swapped, ge == le swapped, gt == lt swapped, eq == le && ge, trichotomy, "
                     "reflexive, symmetric, transitive, consistent with numeric < on non-NaN); IntFromFloat never stops and truncates "
-                    "toward zero for |f| < 2^62; FloatFromInt is finite, exact below 2^53 and monotone."),
-        level_note=("Assumed: Rust f64 operators are IEEE-754 binary64; quotient values are not recomputed (CBMC cost). NOT verified: powf "
-                    "(^), sqrt, sin..log10, ceil/floor/round arms (no libm model in CBMC); unary float minus lowering (0.0 - x) and that "
+                    "toward zero for |f| < 2^62; FloatFromInt is finite, exact below 2^53 and monotone. The 16 libm arms (PowerFloat(Imm), Atan2, Ceil, Floor, "
+                    "Round, SquareRoot, Sin..Log10) are proved to DELEGATE: with the std function replaced by a recorder (kani::stub) the arm calls "
+                    "it exactly once on its operands in the written order and stores exactly the returned value, for all bit patterns."),
+        level_note=("Assumed: Rust f64 operators are IEEE-754 binary64; quotient values are not recomputed (CBMC cost). NOT verified: the VALUES of powf "
+                    "(^), sqrt, sin..log10, ceil/floor/round (std/libm, no model in CBMC); unary float minus lowering (0.0 - x) and that "
                     "float literals / folded constants denote the nearest binary64 (str::parse::<f64> / f64::to_string round trip, std). "
                     "Kani's own NaN/float-overflow checks are switched off because they reject legitimate IEEE results."),
         technique="Kani loop-free full-domain harnesses on lifted real match arms",
